@@ -68,7 +68,7 @@ func (e *fbEx) recText(multi bool, v []byte) string {
 		if err := proto.Unmarshal(v, m); err != nil {
 			return "undecodable"
 		}
-		var as []string
+		as := []string{"#"} // the model's text of an asset list: "#", then ",group=amount" per asset
 		for _, a := range m.GetAssets() {
 			as = append(as, a.GetGroup()+"="+new(big.Int).SetBytes(a.GetAmount()).String())
 		}
@@ -78,7 +78,7 @@ func (e *fbEx) recText(multi bool, v []byte) string {
 	if err := proto.Unmarshal(v, s); err != nil {
 		return "undecodable"
 	}
-	return strings.Join([]string{e.who(s.GetOwner()), s.GetToken(), s.GetFrom(), s.GetTo(), e.hashText(s.GetHash()), e.who(s.GetCreator()), "=" + new(big.Int).SetBytes(s.GetAmount()).String()}, "/")
+	return strings.Join([]string{e.who(s.GetOwner()), s.GetToken(), s.GetFrom(), s.GetTo(), e.hashText(s.GetHash()), e.who(s.GetCreator()), "#,=" + new(big.Int).SetBytes(s.GetAmount()).String()}, "/")
 }
 
 // fbKey: canonical name of a ledger key of this workload: kind 'S'/'M' record, 'G' given counter
